@@ -250,6 +250,23 @@ func judge(sc *Scenario, res *result) (misses []miss, classes []string) {
 			add(false, "silence", "no reply until %d us, liveness=%s", res.SilentUntil, res.Liveness)
 		}
 	}
+	// ---- every request ends: once all outcomes are in (reply or error delivered, one-way sent on, client gone) no
+	// request of this listener is still active inside the proxy. (A two-way request without any reply is judged above.)
+	if res.ActiveAtEnd > 0 && !(first == nil && !sc.Oneway && !res.Disconnected) {
+		kind := "two-way"
+		if sc.Oneway {
+			kind = "oneway"
+		} else if res.Disconnected {
+			kind = "client-disconnected"
+		}
+		sig := "never-completes:request-still-active-after-its-outcome:" + sc.Proto + ":" + kind
+		switch cause := hangCause(sc, res); cause {
+		case "retry-budget-above-9:phase-loop-exhausted", "global-timeout-fired-while-retry-was-being-set-up":
+			sig = "never-completes:" + cause // the same abandoned stream, seen through the gauge instead of through the missing reply
+		}
+		add(res.ActiveLiveness == "proxy-alive", sig,
+			"the listener still counts %d active request(s) at %d us (global timeout %d us): more than a second after the last outcome, before the client connection is closed, and after a fresh exchange through the same MOSN process was answered (%s): a request that had its outcome was never ended inside the proxy", res.ActiveAtEnd, res.ActiveAfterUs, us(gt), res.ActiveLiveness)
+	}
 	if first != nil && !sc.Oneway && !res.Disconnected {
 		limit := gt + completionBand
 		if !sc.allLive() || sc.Proto != "Http1" && !sc.Warm {
@@ -320,6 +337,12 @@ func judge(sc *Scenario, res *result) (misses []miss, classes []string) {
 	}
 	if sc.Oneway {
 		classes = append(classes, "oneway")
+	}
+	if sc.FilterDelayUs > 0 {
+		classes = append(classes, "filter-delay-after-choose-host")
+		if !sc.allLive() {
+			classes = append(classes, "filter-delay-after-choose-host:with-failing-host")
+		}
 	}
 	if sc.ReqTimeout {
 		classes = append(classes, "timeout-in-request")
